@@ -419,7 +419,7 @@ func replayNative(nat *sx.Native, id string, h H, v sx.Violation) (string, bool,
 }
 
 func runReplay(nat *sx.Native, doc replayDoc, path string) (bool, string) {
-	bin, err := nat.Build(doc.Pkg, doc.Tags, false)
+	bin, err := nat.BuildMode(doc.Pkg, doc.Tags, false, doc.Kind == "memory-safety")
 	if err != nil {
 		return false, err.Error()
 	}
@@ -446,7 +446,7 @@ func runReplay(nat *sx.Native, doc replayDoc, path string) (bool, string) {
 			return true, no.Outcome
 		}
 	case "memory-safety":
-		if strings.HasPrefix(no.Outcome, "VERIF-PANIC") || strings.HasPrefix(no.Outcome, "VERIF-ASSERT-FAILED") {
+		if strings.HasPrefix(no.Outcome, "VERIF-PANIC") || strings.HasPrefix(no.Outcome, "VERIF-ASSERT-FAILED") || strings.HasPrefix(no.Outcome, "VERIF-CHECKPTR") {
 			return true, no.Outcome
 		}
 	}
